@@ -62,6 +62,7 @@ func runC12(c *Ctx, r *Report) {
 	checkStableSorts(c, r, "R12.7", c12VerbFiles, 3)
 	c12RegexSplice(c, r)
 	c12PerFieldLoops(c, r)
+	c12NotOwnCollision(c, r)
 }
 
 func c12Ownership(c *Ctx, r *Report) {
@@ -1112,4 +1113,99 @@ func c12PerFieldLoops(c *Ctx, r *Report) {
 		}
 	}
 	r.Floor("R12.9", "record-changing loops over the verb's field-name lists", n, 8)
+}
+
+// R12.10: an entry is not its own collision. A Mlrmap method that looks up
+// two entries (by two keys, or by a key and a position) and unlinks one of
+// them to make room for the other must have established that they are two
+// different entries: renaming a field to its own name would otherwise delete
+// it.
+func c12NotOwnCollision(c *Ctx, r *Report) {
+	r.Rule("R12.10", "an entry is not its own collision: in the methods of Mlrmap that obtain two entries by two look-ups (findEntry, findEntryByPositionalIndex) and unlink one of them, the unlink is dominated by a test that the two entries — or the two keys they were looked up by — differ (rename a,a and $[[1]] = \"a\" on field a must leave the field in place)")
+	p := c.Pkg("pkg/mlrval")
+	if p == nil {
+		r.Undecided("R12.10", "pkg/mlrval", "", "package not loaded")
+		return
+	}
+	n := 0
+	for _, fn := range c.ModuleFunctions() {
+		if fn.Pkg == nil || fn.Blocks == nil || fn.Pkg.Pkg != p.Types || fn.Signature.Recv() == nil {
+			continue
+		}
+		var lookups []*ssa.Call
+		var unlinks []*ssa.Call
+		for _, b := range fn.Blocks {
+			for _, in := range b.Instrs {
+				call, ok := in.(*ssa.Call)
+				if !ok {
+					continue
+				}
+				sc := call.Call.StaticCallee()
+				if sc == nil || sc.Pkg != fn.Pkg {
+					continue
+				}
+				if strings.HasPrefix(sc.Name(), "findEntry") {
+					lookups = append(lookups, call)
+				}
+				if sc.Name() == "Unlink" || sc.Name() == "unlink" {
+					unlinks = append(unlinks, call)
+				}
+			}
+		}
+		if len(lookups) < 2 || len(unlinks) == 0 {
+			continue
+		}
+		for i, ul := range unlinks {
+			victim := ul.Call.Args[len(ul.Call.Args)-1]
+			var vl *ssa.Call
+			for _, l := range lookups {
+				if victim == ssa.Value(l) {
+					vl = l
+				}
+			}
+			if vl == nil {
+				continue
+			}
+			n++
+			key := fmt.Sprintf("%s: unlink #%d of a looked-up entry", SSAName(fn), i+1)
+			okAll := true
+			for _, other := range lookups {
+				if other == vl {
+					continue
+				}
+				// the same key looked up twice is the same entry by construction: not a pair
+				if len(other.Call.Args) == len(vl.Call.Args) && other.Call.Args[len(other.Call.Args)-1] == vl.Call.Args[len(vl.Call.Args)-1] && other.Call.StaticCallee() == vl.Call.StaticCallee() {
+					continue
+				}
+				differ := false
+				for _, g := range GuardsAt(ul.Block()) {
+					cond, pol := stripNot(g.Cond, g.Polarity)
+					cmp, ok := cond.(*ssa.BinOp)
+					if !ok || (cmp.Op != token.EQL && cmp.Op != token.NEQ) {
+						continue
+					}
+					ne := (cmp.Op == token.NEQ) == pol
+					if !ne {
+						continue
+					}
+					pair := func(a, b ssa.Value) bool {
+						return (cmp.X == a && cmp.Y == b) || (cmp.X == b && cmp.Y == a)
+					}
+					if pair(vl, other) {
+						differ = true
+					}
+					ka, kb := vl.Call.Args[len(vl.Call.Args)-1], other.Call.Args[len(other.Call.Args)-1]
+					if pair(ka, kb) {
+						differ = true
+					}
+				}
+				if !differ {
+					okAll = false
+				}
+			}
+			r.Check(okAll, "R12.10", key, c.Rel(ul.Pos()), "after a test that the two entries (or keys) differ",
+				fmt.Sprintf("%s looks up two entries and unlinks one of them with no test on the way that they are different entries: when both look-ups find the same field (rename a,a) the field is deleted", SSAName(fn)))
+		}
+	}
+	r.Floor("R12.10", "unlinks of one of two looked-up entries", n, 2)
 }
